@@ -31,6 +31,10 @@ func init() {
 }
 
 func runC09(w *World, r *Report) {
+	hrIdentityHasher(w, r, "R5")
+	hrRunOnRequestUpdates(w, r, "R6")
+	// the fold of the remedy chain: an early response (the 429 of this plugin) wins over what earlier remedies built (C07.R2)
+	r.Borrow(w, runC07, map[string]string{"R2": "R6"})
 	hrEarlyResponseNotRewritten(w, r, "R6")
 	hrNoDedupBeforeUniqueness(w, r, "R5")
 	hrParseHeaders(w, r, "R5")
